@@ -165,12 +165,29 @@ Extensions for the generic-output-metric epoch kernel of layouts.py (C07; exempl
                occurrence of the name is rejected.  The link theorems then speak about such calls only (non-empty
                `output_metric_kwds` -- e.g. the `sigma` of weighted / Mahalanobis output metrics -- stay outside the tie).
                Any other starred argument is rejected as before.
+Extensions for ll_dirichlet / sparse_russellrao / sparse_ll_dirichlet (distances.py C12, sparse.py C13)
+  int/float  : a function (without an explicit numba signature) whose `return` statements return a scalar int on one path and a
+  returns      scalar float on another (`if x == 1: return 0` / `return x * np.log(x) ...`) returns a float: numba unifies the
+               return type to float64, so every int return value is converted (`of_Z`; same value).  Any other mismatch of
+               return types is rejected.
+  np.all     : `np.all(a == b)` with a, b NAMES of 1-d int arrays (VZ) is `zall_eq a b` (PyPrim.v: all entries at equal positions
+               are equal).  This is numpy's / numba's meaning when the two arrays have the same length (otherwise they raise or
+               broadcast): the source guards it by `a.shape[0] == b.shape[0] and ...`, the link theorem uses `zall_eq_len_iff`.
+               Any other argument of np.all (float arrays, other comparisons, expressions) is rejected.
+  for v in a : `for v in a:` with `a` the NAME of a 1-d float array (V) that the function never stores into is
+               `for_each a (fun v state => body) state` (PyPrim.v: left fold over the elements in order, v a float scalar); no
+               break / continue / return inside; the body may assign neither `a` nor `v`.  Loops over anything else
+               (int arrays, 2-d arrays, expressions, zip / enumerate) are rejected.
 """
 import ast, decimal, hashlib
 
 
 class Unsupported(Exception):
     pass
+
+
+class _RetFloat(Exception):
+    """internal: the function returns an int on one path and a float on another (see `int/float returns` in the header)"""
 
 
 F, I, B, V, M, VZ, MZ, U = "F", "I", "B", "V", "M", "VZ", "MZ", "U"
@@ -848,6 +865,16 @@ class FnTranslator:
         if name in ("np.power", "pow") and len(n.args) == 2:
             a, ta = self.expr(n.args[0], env)
             return self.power(a, ta, n.args[1], env)
+        if name == "np.all" and len(n.args) == 1 and not kw:
+            # np.all(a == b), a and b NAMES of int arrays: `zall_eq a b` (meaning for equal lengths only, see the header)
+            arg = n.args[0]
+            if isinstance(arg, ast.Compare) and len(arg.ops) == 1 and isinstance(arg.ops[0], ast.Eq) and \
+                    isinstance(arg.left, ast.Name) and isinstance(arg.comparators[0], ast.Name):
+                a, ta = self.expr(arg.left, env)
+                b, tb = self.expr(arg.comparators[0], env)
+                if ta == VZ and tb == VZ:
+                    return "(zall_eq %s %s)" % (a, b), B
+            raise Unsupported("np.all of anything but `a == b` on two int array names")
         if name == "np.sum" and len(n.args) == 1 and not kw:
             arg = n.args[0]
             # np.sum(x != 0): count
@@ -999,6 +1026,8 @@ class FnTranslator:
         return "'(" + ", ".join(self.var(n) for n in names) + ")"
 
     def ret(self, e, t, env=None):
+        if self.ret_float and t == I:
+            e, t = self.coerce(e, I, F), F
         if self.ret_wrap and t == I:
             e = "(%s %s)" % (self.ret_wrap, e)
         if self.mutated:
@@ -1027,7 +1056,9 @@ class FnTranslator:
         if getattr(self, "ret_type", None) is None:
             self.ret_type = t
         elif self.ret_type != t:
-            # allow F/I mismatch by refusing (fail closed)
+            if {self.ret_type, t} == {I, F} and not self.ret_wrap and not self.ret_float:
+                raise _RetFloat()      # scalar int on one path, float on another: re-translated with every int return converted
+            # any other mismatch: refuse (fail closed)
             raise Unsupported("return types differ: %s vs %s" % (self.ret_type, t))
 
     def block(self, stmts, env, k):
@@ -1389,6 +1420,8 @@ class FnTranslator:
             raise Unsupported("for target")
         if contains(s.body, (ast.Return, ast.Raise)):
             raise Unsupported("return/raise inside a loop")
+        if isinstance(s.iter, ast.Name) and env.get(s.iter.id) == V:
+            return self.foreach(s, rest, env, k)
         lo, hi = self.range_args(s.iter, env)
         pre, env = self.take_pre(env)
         iv = s.target.id
@@ -1430,6 +1463,37 @@ class FnTranslator:
             head = "@for_range %s" % coq_type(tuple([B] + [env[n] for n in state])) if state else "@for_range bool"
         txt = pre + "let %s := %s %s %s (fun %s %s =>\n%s) %s in\n" % (
             self.pat(st_names), head, lo, hi, self.var(iv), self.pat(st_names), body, init)
+        return txt + self.block(rest, env, k)
+
+    def foreach(self, s, rest, env, k):
+        """`for v in a:` with `a` the NAME of a 1-d float array the function never stores into: `for_each a (fun v state => ..) state`
+        (PyPrim.v: the elements in order); no break / continue, the body may not assign `a` or `v`"""
+        arr, iv = s.iter.id, s.target.id
+        if contains(s.body, (ast.Break, ast.Continue)):
+            raise Unsupported("break/continue in a loop over the elements of an array")
+        if arr in self.mutated or arr in self.viewmap or arr in self.viewmap.values():
+            raise Unsupported("loop over the elements of an array the function stores into")
+        pre, env = self.take_pre(env)
+        state, local = self.state_vars(s.body, env)
+        if iv in state or iv in local or arr in state or arr in local or iv == arr:
+            raise Unsupported("loop variable / iterated array assigned in the body")
+        for nm in set(local) | {iv}:
+            if self.read_before_bound(rest, nm):
+                raise Unsupported("name bound inside a loop is read after it: " + nm)
+        env_in = dict(env)
+        env_in[iv] = F
+        st_names = list(state)
+
+        def fin(e2):
+            for n in state:
+                if e2.get(n) != env[n]:
+                    raise Unsupported("loop changes the type of " + n)
+            return self.tup(st_names)
+        body = self.nested(lambda: self.loop_body(s.body, env_in, fin, None))
+        if not st_names:
+            return pre + self.block(rest, env, k)
+        txt = pre + "let %s := for_each %s (fun %s %s =>\n%s) %s in\n" % (
+            self.pat(st_names), self.var(arr), self.var(iv), self.pat(st_names), body, self.tup(state))
         return txt + self.block(rest, env, k)
 
     def nested(self, thunk):
@@ -1745,6 +1809,7 @@ class FnTranslator:
             raise Unsupported("argument array both mutated and rebound")
         # numba explicit signature "i4(...)": the int result is wrapped to int32
         self.ret_wrap = None
+        self.ret_float = bool(self.sig.get("_ret_float"))
         for d in fn.decorator_list:
             if isinstance(d, ast.Call) and d.args and isinstance(d.args[0], ast.Constant) and isinstance(d.args[0].value, str):
                 sig = d.args[0].value.replace(" ", "")
@@ -1895,8 +1960,13 @@ def translate_module(path, wanted, sigs=None, consts=None, modname="Src", const_
         fn = fns[srcname]
         sig["outname"] = name
         try:
-            tr = FnTranslator(fn, sig, done, consts or {})
-            text, info = tr.translate()
+            try:
+                tr = FnTranslator(fn, sig, done, consts or {})
+                text, info = tr.translate()
+            except _RetFloat:
+                sig["_ret_float"] = True
+                tr = FnTranslator(fn, sig, done, consts or {})
+                text, info = tr.translate()
         except Unsupported as e:
             report[name] = {"ok": False, "error": "unsupported: %s (line %d)" % (e, fn.lineno)}
             continue
